@@ -516,7 +516,8 @@ def run_sim(fn, fs, chooser, step_cap=5000, mem_total=64 << 30, cpu_count=4, que
         r.sched = sched
         if preempt is not None:
             # preempt = (probability per library source line, key of the PRNG streams)
-            sched.enable_preemption(preempt[0], preempt[1], os.path.join(REPO, 'seismic_zfp') + os.sep)
+            sched.enable_preemption(preempt[0], preempt[1], os.path.join(REPO, 'seismic_zfp') + os.sep,
+                                    post=preempt[2] if len(preempt) > 2 else None)
             sys.settrace(sched.tracer)
         try:
             try:
